@@ -437,3 +437,11 @@ Proof.
   unfold flatten. cbn [V_nodal_rows V_facet_rows V_edge_rows V_interior_rows V_nodal_ix V_facet_ix V_edge_ix V_interior_ix].
   rewrite !inter_nil. reflexivity.
 Qed.
+
+(* the complement of several sets is the complement of their UNION *)
+Theorem complement_many_in N Ds x : In x (complement_many N Ds) <-> x < N /\ forall D, In D Ds -> ~ In x D.
+Proof.
+  unfold complement_many. rewrite complement_in, in_concat. split; intros [H1 H2]; (split; [exact H1|]).
+  - intros D HD Hx. apply H2. now exists D.
+  - intros [D [HD Hx]]. exact (H2 D HD Hx).
+Qed.
